@@ -143,7 +143,7 @@ def apply_event(s, ev):
         _, via, path, form, val = ev
         ft, _ = type_at(s.t, s.mv, path)
         arg = xt.to_py(ft, val) if form == "py" else xt.to_nd(ft, val, form) if form in cons.ND else None
-        if form in ("xobj", "xobj-view"):
+        if form in ("xobj", "xobj-view", "xobj-resplit"):
             arg = xt.construct(ft, xt.to_py(ft, val), _buffer=place.traced("np", 0))
         elif form in ("xobj-same", "xobj-same-view"):
             # the source lives in the SAME buffer as the object it is assigned into
@@ -278,6 +278,20 @@ def events(s, opts, depth_now):
                     if via == "n" and len(path) < 2:
                         continue
                     evs.append(("setc", via, path, form, val))
+    if opts.get("resplit"):
+        # NOT a fitting value: an object of the same class and total size whose room is split differently between its parts
+        # (each part keeps the room fixed at its creation: the library refuses; a check that asks for this event judges
+        # what happens if it does not)
+        from . import c11
+
+        for path, ct, cv in ([((), t, mv)] if t[0] in ("St", "A") else []) + list(xt.compound_paths(t, mv)):
+            if (path and path[-1] in ("*", "#")) or xt.has_refs(ct):
+                continue
+            if not all(string_room(lv) == s.rooms.get(tuple(path) + tuple(lp), string_room(lv)) for lp, lt, lv in xt.leaf_paths(ct, cv) if lt[0] == "Str" and not any(q in ("*", "#") for q in lp)):
+                continue
+            for val in (c11.resplit_value(ct, cv), c11.resplit_array(ct, cv), c11.resplit_deep(ct, cv)):
+                if val is not None:
+                    evs.append(("setc", "h", path, "xobj-resplit", val))
     if opts.get("compounds", True) and xt.has_refs(t):
         # whole nested compounds whose references are all null, and rebinding of reference slots themselves
         for path, ct, cv in xt.compound_paths(t, mv):
